@@ -61,8 +61,10 @@ class InstanceGenerator(abc.ABC):
             num_jobs = (num_jobs, num_jobs)
         if isinstance(num_machines, int):
             num_machines = (num_machines, num_machines)
-        if seed is not None:
-            random.seed(seed)
+        # Each generator owns its random number generator, so that generators
+        # built with the same seed produce the same sequence of instances
+        # regardless of what else draws random numbers in the process.
+        self.rng = random.Random(seed)
 
         self.num_jobs_range = num_jobs
         self.num_machines_range = num_machines
